@@ -13,8 +13,7 @@ def snakeHandler : Handler
     let m := String.ofList (Snake.toSnake i.toList)
     let v1 := expectEq "ToSnakeCase" m o
     let v2 := if SnakeSpec.snakeSpecOK i.toList o.toList then okV
-              else propFail s!"C16 placement rules fail on input {SExp.quote i} output {SExp.quote o}"
-    -- fixed point, checked on the implementation's output by the model's function
+              else propFail "C16" s!"placement rules fail on input {SExp.quote i} output {SExp.quote o}"
     some (v1.and v2)
   | _ => none
 
